@@ -13,6 +13,7 @@ import (
 	"regexp"
 	"sort"
 	"strings"
+	"sync/atomic"
 	"time"
 
 	"github.com/hyperledger/firefly-signer/pkg/eip712"
@@ -154,10 +155,7 @@ func (h *history) create(name string, content []byte, dir bool) {
 	if h.cfg.Listener {
 		// the fs listener will pick it up: wait until its effect is visible, then it is an HEvent
 		if a, ok := nameAddr(name, dir); ok {
-			deadline := time.Now().Add(10 * time.Second)
-			if *h.slow {
-				deadline = time.Now().Add(300 * time.Millisecond)
-			}
+			deadline := time.Now().Add(patience(10 * time.Second))
 			seen := false
 			for !seen && time.Now().Before(deadline) {
 				acc, _ := h.w.GetAccounts(h.ctx)
@@ -171,7 +169,7 @@ func (h *history) create(name string, content []byte, dir bool) {
 				}
 			}
 			if !seen {
-				*h.slow = true
+				slowMode.Store(true)
 				h.fail("the file-system event for a created matching key file was never reflected in GetAccounts", map[string]interface{}{"name": name})
 			}
 		} else {
@@ -219,10 +217,7 @@ func (h *history) accounts() []string {
 
 // drain: quiescent point — wait for the deliveries that must come, then a little longer for any that must not
 func (h *history) drain() {
-	deadline := time.Now().Add(8 * time.Second)
-	if *h.slow {
-		deadline = time.Now().Add(300 * time.Millisecond)
-	}
+	deadline := time.Now().Add(patience(8 * time.Second))
 	poll := func() bool {
 		got := false
 		for _, l := range h.listeners {
@@ -247,7 +242,7 @@ func (h *history) drain() {
 		}
 	}
 	if h.received < h.expected {
-		*h.slow = true
+		slowMode.Store(true)
 	}
 	idle := time.Now()
 	for time.Since(idle) < 15*time.Millisecond {
@@ -283,13 +278,28 @@ func (h *history) sign(k *keyT) {
 	h.desc = append(h.desc, map[string]interface{}{"op": "sign", "address": k.hex()})
 }
 
+// once some wait has timed out the implementation is broken anyway: keep the remaining waits short
+var slowMode atomic.Bool
+
+func patience(d time.Duration) time.Duration {
+	if slowMode.Load() {
+		d /= 20
+		if d < 300*time.Millisecond {
+			d = 300 * time.Millisecond
+		}
+	}
+	return d
+}
+
 func closeWithDeadline(w fswallet.Wallet, d time.Duration) bool {
+	d = patience(d)
 	done := make(chan struct{})
 	go func() { _ = w.Close(); close(done) }()
 	select {
 	case <-done:
 		return true
 	case <-time.After(d):
+		slowMode.Store(true)
 		return false
 	}
 }
